@@ -4,10 +4,14 @@ import (
 	"context"
 	"encoding/hex"
 	"fmt"
+	"github.com/pingcap/kvproto/pkg/kvrpcpb"
+	"github.com/tikv/client-go/v2/tikvrpc"
 	"os"
 	"reflect"
 	"sort"
 	"sync"
+	"sync/atomic"
+	"time"
 	"unsafe"
 
 	"github.com/tikv/client-go/v2/testutils"
@@ -76,8 +80,15 @@ func (w *World) newEngine(kind string) (storage.KvStorage, bool, error) {
 		// several client connections over the one cluster, as in production (200 there): each has its own
 		// timestamp oracle and caches, and the adapter goes round them
 		var stores []*tikv.KVStore
+		var hijack func(tikv.Client) tikv.Client
+		if w.Sc != nil && (w.Sc.Extra["tikv_scan_fault"] > 0 || w.Sc.Extra["tikv_get_fault"] > 0) {
+			// a fault below the adapter: the n-th scan request to the cluster is answered without a body,
+			// or the n-th point read with a key error
+			fc := &scanFaultClient{failAt: int32(w.Sc.Extra["tikv_scan_fault"]), getFailAt: int32(w.Sc.Extra["tikv_get_fault"]), w: w}
+			hijack = func(c tikv.Client) tikv.Client { return &scanFaultClientConn{Client: c, f: fc} }
+		}
 		for i := 0; i < 3; i++ {
-			store, err := tikv.NewTestTiKVStore(rpcClient, pdClient, nil, nil, 0)
+			store, err := tikv.NewTestTiKVStore(rpcClient, pdClient, hijack, nil, 0)
 			if err != nil {
 				return nil, false, err
 			}
@@ -88,6 +99,36 @@ func (w *World) newEngine(kind string) (storage.KvStorage, bool, error) {
 		return st, false, nil
 	}
 	return nil, false, fmt.Errorf("unknown engine %q", kind)
+}
+
+// scanFaultClient counts the scan requests that reach the TiKV mock cluster and breaks one of them.
+type scanFaultClient struct {
+	failAt    int32
+	scans     int32
+	getFailAt int32
+	gets      int32
+	w         *World
+}
+
+type scanFaultClientConn struct {
+	tikv.Client
+	f *scanFaultClient
+}
+
+func (c *scanFaultClientConn) SendRequest(ctx context.Context, addr string, req *tikvrpc.Request, timeout time.Duration) (*tikvrpc.Response, error) {
+	if req.Type == tikvrpc.CmdScan && c.f.w.TiKVScanFaultArmed && c.f.failAt > 0 {
+		if atomic.AddInt32(&c.f.scans, 1) == c.f.failAt {
+			c.f.w.TiKVScanFaultFired++
+			return &tikvrpc.Response{}, nil
+		}
+	}
+	if req.Type == tikvrpc.CmdGet && c.f.w.TiKVScanFaultArmed && c.f.getFailAt > 0 {
+		if atomic.AddInt32(&c.f.gets, 1) == c.f.getFailAt {
+			c.f.w.TiKVGetFaultFired++
+			return &tikvrpc.Response{Resp: &kvrpcpb.GetResponse{Error: &kvrpcpb.KeyError{Abort: "injected read fault"}}}, nil
+		}
+	}
+	return c.Client.SendRequest(ctx, addr, req, timeout)
 }
 
 // NewEngineFor creates a bare engine for raw-engine properties.
